@@ -1,9 +1,46 @@
 """Regeneration of lean/NeoFS/Gen/*.lean from /repo's current working tree."""
 import os
+import re
+import subprocess
 
 LAST_FACTS = None
 
 
 def regenerate(repo, lean, build, env, log):
     """Returns True, or a list of problems (each counts as a broken proof obligation)."""
-    return True
+    global LAST_FACTS
+    os.makedirs(build, exist_ok=True)
+    harness = os.path.join(os.path.dirname(lean), "harness")
+    exe = os.path.join(build, "extract")
+    p = subprocess.run(["go", "build", "-o", exe, "./extract"], cwd=harness, env=env,
+                       stdout=subprocess.PIPE, stderr=subprocess.STDOUT, text=True)
+    log.write(p.stdout)
+    if p.returncode != 0:
+        return ["translator does not build: " + p.stdout[-400:]]
+    gen = os.path.join(lean, "NeoFS", "Gen")
+    os.makedirs(gen, exist_ok=True)
+    tmp = os.path.join(build, "gen-%d" % os.getpid())
+    os.makedirs(tmp, exist_ok=True)
+    p = subprocess.run([exe, repo, tmp], stdout=subprocess.PIPE, stderr=subprocess.STDOUT, text=True)
+    log.write(p.stdout)
+    problems = [l[len("PROBLEM "):] for l in p.stdout.splitlines() if l.startswith("PROBLEM ")]
+    if p.returncode != 0:
+        problems.append("translator failed: " + p.stdout[-400:])
+    facts = {}
+    for f in sorted(os.listdir(tmp)):
+        src = os.path.join(tmp, f)
+        dst = os.path.join(gen, f)
+        with open(src) as fh:
+            new = fh.read()
+        old = None
+        if os.path.exists(dst):
+            with open(dst) as fh:
+                old = fh.read()
+        if new != old:  # keep mtime stable when nothing changed so lake does not rebuild
+            with open(dst, "w") as fh:
+                fh.write(new)
+        facts[f] = re.findall(r"^def (\S+)", new, flags=re.M)
+        os.unlink(src)
+    os.rmdir(tmp)
+    LAST_FACTS = facts
+    return True if not problems else problems
